@@ -44,6 +44,7 @@ use crate::{
         rr::{
             DNSClass, LowerName, Name, RData, Record, RecordRef, RecordType, RrKey, SerialNumber,
         },
+        serialize::binary::{BinEncodable, BinEncoder, NameEncoding},
     },
     runtime::{RuntimeProvider, Time},
     xfer::{FirstAnswer, dns_handle::DnsHandle},
@@ -1715,15 +1716,35 @@ impl<'a> RrsetVerificationContext<'a> {
         for rec in self.rrset.records.iter() {
             rec.name.hash(&mut hasher);
             rec.dns_class.hash(&mut hasher);
-            rec.data.hash(&mut hasher);
+            hash_rdata(&rec.data, &mut hasher);
         }
         for rec in self.rrset.signatures.iter() {
             rec.name.hash(&mut hasher);
             rec.dns_class.hash(&mut hasher);
-            rec.data.hash(&mut hasher);
+            hash_rdata(&rec.data, &mut hasher);
         }
 
         ValidationCacheKey(hasher.finish())
+    }
+}
+
+/// Hashes RDATA octet for octet: the uncompressed wire form, with the letter case of embedded names
+/// preserved.
+///
+/// `RData`'s own `Hash` goes through `Name`'s, which ignores ASCII case. The DNSSEC canonical form
+/// keeps the case of names embedded in the RDATA of some types (e.g. the NSEC next domain name, RFC
+/// 6840 section 5.1), so two RRsets that differ only there are covered by different signatures and
+/// must not share a cached verdict.
+fn hash_rdata(data: &RData, hasher: &mut DefaultHasher) {
+    let mut bytes = Vec::new();
+    let emitted = {
+        let mut encoder = BinEncoder::new(&mut bytes);
+        encoder.name_encoding = NameEncoding::Uncompressed;
+        data.emit(&mut encoder)
+    };
+    match emitted {
+        Ok(()) => bytes.hash(hasher),
+        Err(_) => data.hash(hasher),
     }
 }
 
